@@ -1,9 +1,42 @@
-import Driver.Util
+import Driver.TLVal
+import Mtv.TL.Encode
+import Mtv.TL.Decode
+import Mtv.Gen.Registry
 namespace Driver.C01
-open Mtv Driver
+open Mtv Mtv.TL Driver Driver.TLVal
 
-/-- operations of property C01; not built yet -/
+def noGunzip : Bytes → Option Bytes := fun _ => none
+
+def fuelFor (bs : Bytes) : Nat := 64 * bs.length + 4096
+
 def handle : List String → String
+  | ["c01.rt", _id, v] =>
+    match parse? v with
+    | none => "bad-op"
+    | some val =>
+      let enc := encVal Mtv.Gen.registry val
+      match enc, val with
+      | .ok bs, .obj id _ =>
+        let named := decodeNamed Mtv.Gen.registry noGunzip (fuelFor bs) id bs
+        let unk := decodeUnknown Mtv.Gen.registry noGunzip (fuelFor bs) [] bs
+        s!"enc={showBytes bs} named={showOutcome named} unknown={showOutcome unk}"
+      | .ok bs, _ => s!"enc={showBytes bs} named=- unknown=-"
+      | .err _, _ => "enc=err"
+      | .panic _, _ => "enc=panic"
+  | ["c01.msg", b, rest] =>
+    -- PutMessage / PopMessage on a byte string followed by `rest`
+    match parseBytes? b, parseBytes? rest with
+    | some bs, some r =>
+      match putMessage bs with
+      | .ok e =>
+        let back := match popMessage (e ++ r) with
+          | .ok (m, r') => s!"{showBytes m}/{showBytes r'}"
+          | .err _ => "err"
+          | .panic _ => "panic"
+        s!"enc={showBytes e} dec={back}"
+      | .err _ => "enc=err"
+      | .panic _ => "enc=panic"
+    | _, _ => "bad-op"
   | _ => "bad-op"
 
 end Driver.C01
